@@ -249,6 +249,55 @@ impl DH {
     }
 }
 
+/// `LogSource` whose file reads sleep first (seeded, at most `max_us` µs; off for `max_us = 0`): a delay BETWEEN pipeline stages — the
+/// file-archiver workers of the archiver's ordered `parallel_map` finish out of order, the tree archiver must still see source order.
+struct SlowSource {
+    inner: LogSource,
+    seed: u64,
+    max_us: u64,
+}
+struct SlowReader {
+    inner: crate::dispatch::c11::LogReader,
+    us: u64,
+}
+impl std::io::Read for SlowReader {
+    fn read(&mut self, buf: &mut [u8]) -> std::io::Result<usize> {
+        if self.us > 0 {
+            std::thread::sleep(Duration::from_micros(self.us));
+            self.us = 0;
+        }
+        self.inner.read(buf)
+    }
+}
+impl SlowSource {
+    /// reads of 1 in 3 latency seeds are slow (never the undelayed run 0)
+    fn new(entries: Vec<SE>, seed: u64) -> Self {
+        Self { inner: LogSource::new(entries), seed, max_us: if seed % 3 == 1 { 2000 } else { 0 } }
+    }
+}
+impl rustic_core::ReadSource for SlowSource {
+    type Open = SlowReader;
+    type Iter = std::vec::IntoIter<RusticResult<rustic_core::ReadSourceEntry<SlowReader>>>;
+    fn size(&self) -> RusticResult<Option<u64>> {
+        self.inner.size()
+    }
+    fn entries(&self) -> Self::Iter {
+        let (seed, max_us) = (self.seed, self.max_us);
+        self.inner
+            .entries()
+            .enumerate()
+            .map(|(i, e)| {
+                e.map(|e| {
+                    let mut r = Rng::new(seed ^ (i as u64).wrapping_mul(0xA24B_AED4));
+                    let us = if max_us == 0 || r.chance(1, 2) { 0 } else { r.below(max_us + 1) };
+                    rustic_core::ReadSourceEntry { path: e.path, node: e.node, open: e.open.map(|inner| SlowReader { inner, us }) }
+                })
+            })
+            .collect::<Vec<_>>()
+            .into_iter()
+    }
+}
+
 /// Run `f` on its own thread; `None` after `secs` seconds (the thread is left behind).
 fn watchdog<T: Send + 'static>(secs: u64, f: impl FnOnce() -> T + Send + 'static) -> Option<T> {
     let (tx, rx) = std::sync::mpsc::channel();
@@ -842,7 +891,7 @@ fn one_run(sa: &[SE], sb: Option<&[SE]>, run: Run, threads: usize, k: usize, cop
             let force = BackupOptions::default().parent_opts(ParentOptions::default().force(true));
             let repo = h.open().and_then(|r| r.to_indexed_ids()).map_err(|e| crate::util::errkind(&e))?;
             let snap_a = repo
-                .archive(&force, &LogSource::new(sa2.clone()), new_snap(), &[PathBuf::from(SRC_ROOT)])
+                .archive(&force, &SlowSource::new(sa2.clone(), seed), new_snap(), &[PathBuf::from(SRC_ROOT)])
                 .map_err(|e| crate::util::errkind(&e))?;
             drop(repo);
             if copy {
@@ -867,7 +916,7 @@ fn one_run(sa: &[SE], sb: Option<&[SE]>, run: Run, threads: usize, k: usize, cop
             std::thread::sleep(Duration::from_millis(2));
             let repo = h.open().and_then(|r| r.to_indexed_ids()).map_err(|e| crate::util::errkind(&e))?;
             let snap_b = repo
-                .archive(&BackupOptions::default(), &LogSource::new(sb2), new_snap(), &[PathBuf::from(SRC_ROOT)])
+                .archive(&BackupOptions::default(), &SlowSource::new(sb2, seed ^ 1), new_snap(), &[PathBuf::from(SRC_ROOT)])
                 .map_err(|e| crate::util::errkind(&e))?;
             drop(repo);
             // forget A, prune with repacking allowed and no grace periods
